@@ -5,8 +5,10 @@ From SudachiVerif Require Generated.TrieBits.
 From SudachiVerif Require Import Model.Trie Model.WordIdTable Model.LexSet.
 From SudachiVerif Require Import Proofs.TrieProofs Proofs.WordIdTableProofs Proofs.LexSetProofs.
 From SudachiVerif Require Import Model.IndexBuild Proofs.IndexBuildProofs.
+From SudachiVerif Require Model.DictCands.
 From SudachiVerif Require Model.Buffer Model.Lattice Model.BuildLattice Proofs.PipelineProofs Proofs.BuildLatticeProofs Proofs.BuildOptimal Proofs.LookupLattice.
-From Coq Require ZArith.
+From Coq Require ZArith String.
+From SudachiVerif Require Generated.IndexFacts.
 Import ListNotations.
 Open Scope N_scope.
 
@@ -207,6 +209,11 @@ Theorem C04_cert_keys_utf8 : forall L rows fuel,
 Proof. exact LookupLattice.cert_keys_utf8. Qed.
 Print Assumptions C04_cert_keys_utf8.
 
+(* build_lattice makes its dictionary nodes the way Model/DictCands.v says (shape re-read from stateful_tokenizer.rs and
+   buffer/mod.rs; behaviour compared on every text of the correspondence run through Lattice::verif_nodes) *)
+Fact C04_fact_lattice_lookup_shape : lattice_shape_ok = true.
+Proof. vm_compute. reflexivity. Qed.
+
 (* the offset tables of InputBuffer are the ones C08 proves about *)
 Fact C04_fact_buffer_cfg : Buffer.cfg_ok Buffer.the_cfg = true.
 Proof. vm_compute. reflexivity. Qed.
@@ -216,7 +223,7 @@ Proof. vm_compute. reflexivity. Qed.
    of characters -- for certified lexicons, every valid text and every character position *)
 Theorem C04_lookup_lattice_nodes_wf : forall lexs params bow t ch_off m,
   (forall L, In L lexs -> LookupLattice.lex_keys_utf8 L) -> bytes t -> chars_ok t -> (ch_off < PipelineProofs.nchars t) ->
-  In m (LookupLattice.dict_cands Buffer.the_cfg lexs params bow t ch_off) ->
+  In m (DictCands.dict_cands Buffer.the_cfg lexs params bow t ch_off) ->
   BuildLatticeProofs.node_wf (PipelineProofs.nchars t) ch_off m.
 Proof. exact (LookupLattice.dict_cands_wf Buffer.the_cfg C04_fact_buffer_cfg). Qed.
 Print Assumptions C04_lookup_lattice_nodes_wf.
@@ -227,7 +234,7 @@ Theorem C04_offered_wf_from_lookup : forall lexs params bow t oov fallback,
   (forall p m, In m (oov p) -> BuildLatticeProofs.node_wf (PipelineProofs.nchars t) p m) ->
   (forall p f, fallback p = Some f -> BuildLatticeProofs.node_wf (PipelineProofs.nchars t) p f) ->
   forall p m, (p < PipelineProofs.nchars t) ->
-    In m (BuildOptimal.offered (fun q => LookupLattice.dict_cands Buffer.the_cfg lexs params bow t q ++ oov q) fallback p) ->
+    In m (BuildOptimal.offered (fun q => DictCands.dict_cands Buffer.the_cfg lexs params bow t q ++ oov q) fallback p) ->
     BuildLatticeProofs.node_wf (PipelineProofs.nchars t) p m.
 Proof. exact (LookupLattice.offered_wf_from_lookup Buffer.the_cfg C04_fact_buffer_cfg). Qed.
 Print Assumptions C04_offered_wf_from_lookup.
@@ -239,13 +246,13 @@ Theorem C04_build_optimal_with_dictionary : forall conn lexs params bow t oov fa
   (forall p m, p < PipelineProofs.nchars t -> In m (oov p) -> BuildLatticeProofs.node_wf (PipelineProofs.nchars t) p m) ->
   (forall p f, p < PipelineProofs.nchars t -> fallback p = Some f -> BuildLatticeProofs.node_wf (PipelineProofs.nchars t) p f) ->
   0 < PipelineProofs.nchars t ->
-  BuildLattice.build conn (LookupLattice.lattice_cands Buffer.the_cfg lexs params bow t oov)
-                     (LookupLattice.lattice_fallback t fallback) (PipelineProofs.nchars t) = Some (L, (r, i, c)) ->
-  (exists p, BuildOptimal.chainP (BuildOptimal.Offered (LookupLattice.lattice_cands Buffer.the_cfg lexs params bow t oov)
-                                                       (LookupLattice.lattice_fallback t fallback)) 0 (PipelineProofs.nchars t) p
+  BuildLattice.build conn (DictCands.lattice_cands Buffer.the_cfg lexs params bow t oov)
+                     (DictCands.lattice_fallback t fallback) (PipelineProofs.nchars t) = Some (L, (r, i, c)) ->
+  (exists p, BuildOptimal.chainP (BuildOptimal.Offered (DictCands.lattice_cands Buffer.the_cfg lexs params bow t oov)
+                                                       (DictCands.lattice_fallback t fallback)) 0 (PipelineProofs.nchars t) p
              /\ Lattice.path_cost conn p = c) /\
-  (forall p, BuildOptimal.chainP (BuildOptimal.Offered (LookupLattice.lattice_cands Buffer.the_cfg lexs params bow t oov)
-                                                       (LookupLattice.lattice_fallback t fallback)) 0 (PipelineProofs.nchars t) p ->
+  (forall p, BuildOptimal.chainP (BuildOptimal.Offered (DictCands.lattice_cands Buffer.the_cfg lexs params bow t oov)
+                                                       (DictCands.lattice_fallback t fallback)) 0 (PipelineProofs.nchars t) p ->
              BinInt.Z.le c (Lattice.path_cost conn p)).
 Proof. exact (LookupLattice.build_optimal_with_dictionary Buffer.the_cfg C04_fact_buffer_cfg). Qed.
 Print Assumptions C04_build_optimal_with_dictionary.
